@@ -306,8 +306,9 @@ class Impl(object):
         if op == 39:
             def go():
                 m = t.lru_trie.metrics()
+                nl = t.link_store.metrics()["nb_links"]
                 return [m["nb_nodes"], m["nb_pages"], m["nb_crawled_pages"], m["nb_tail_nodes"],
-                        m["nb_fragmented_nodes"], m["nb_stems"], m["max_tail"]]
+                        m["nb_fragmented_nodes"], m["nb_stems"], m["max_tail"], int(nl * 2)]
             return self.call(go)
         if op == 46:
             return self.call(lambda: [t.get_page_indegree(a[0]), t.get_page_outdegree(a[0]), t.get_page_degree(a[0]),
